@@ -27,18 +27,20 @@ Genuine defects found with this check (fixes in scratch_reports/C22_parallel_she
    length outside the box are silently missing from a chosen shell (commensurate cell edges, e.g. tetragonal c/a = 3).
 """
 import itertools
+import os
 import numpy as np
 from hypothesis import strategies as st
 
 from vlib.runner import Sub, Violation, Reject, Inconclusive, ok
-from vlib.util import fl, reldiff, maxabs
+from vlib.util import fl, reldiff, maxabs, rng_of, scratch_dir
 from vlib import wbsys
 
 PROPERTY_ID = "C22"
 RULE = ("reciprocal lattice of a lattice from 11 families (+rotation; cell edges generic or, in 1/3 of the cases, "
         "commensurate values 0.75..3 that create accidental shell degeneracies), Monkhorst-Pack mesh in [1..6]^3 with "
         "<= 48 points (1/3 uniform n x n x n), k-points listed in a drawn permutation, exact or rounded to 6/8/10 "
-        "decimals; non-trivial = at least two shells chosen or a non-orthogonal lattice; distinctness by the full case")
+        "decimals; object built by from_kpoints or (1/3) read back by from_nnkp from a file whose neighbour list is written in a "
+        "drawn order; non-trivial = at least two shells chosen or a non-orthogonal lattice; distinctness by the full case")
 ASSUMPTIONS = ["default tolerances of from_kpoints: kmesh_tol=1e-7, bk_complete_tol=1e-5, search_supercell=2",
                "k-points in reduced coordinates inside [0,1) as documented",
                "a shell = all mesh vectors of one length; lengths within 1e-9 relative are 'equal', lengths that differ "
@@ -82,7 +84,10 @@ def case_st(draw):
     perm = draw(st.one_of(st.permutations(list(range(N))), st.just(list(range(N)))))
     # k-points as read from a text file: rounded to a finite number of decimals (None = exact i/N)
     kdec = draw(st.sampled_from([None, 10, 8, 6, None]))
-    return dict(lat=lat, mp=mp, perm=list(perm), kdec=kdec)
+    # route: b-vectors constructed from the k-points, or read from a .nnkp file whose neighbour list (the set found by
+    # the first route, as wannier90 would list it) is written in a drawn order - the format does not prescribe one
+    route = draw(st.sampled_from(["kpoints", "kpoints", "nnkp"]))
+    return dict(lat=lat, mp=mp, perm=list(perm), kdec=kdec, route=route, nbseed=draw(st.integers(0, 2 ** 16)))
 
 
 def _shells(vec_int, vec_cart):
@@ -158,6 +163,29 @@ def check(case):
                             f"{nsh} whole shells inside the search range give a complete stencil")
         raise Reject(f"no complete set: {kind}{' (own solver: ' + str(nsh) + ' shells)' if nsh else ''}")
 
+    if case.get("route") == "nnkp":
+        bg0 = np.array(bk.bk_grid)
+        order = rng_of(case["nbseed"]).permutation(len(bg0))
+        file_b = bg0[order]
+        index_of = {tuple(int(x) for x in k): i for i, k in enumerate(kint)}
+        lines = ["begin real_lattice"] + [" ".join(repr(float(x)) for x in row) for row in L] + ["end real_lattice", "",
+                 "begin kpoints", str(N)] + [" ".join(f"{x:.12f}" for x in k) for k in kint / mp[None, :]] + ["end kpoints", "",
+                 "begin nnkpts", str(len(file_b))]
+        for ik in range(N):
+            for bvec in file_b:
+                q = kint[ik] + bvec
+                G = np.floor_divide(q, mp)
+                lines.append(f"{ik + 1} {index_of[tuple(int(x) for x in (q - G * mp))] + 1} {int(G[0])} {int(G[1])} {int(G[2])}")
+        lines += ["end nnkpts", ""]
+        with scratch_dir() as d:
+            fn = os.path.join(d, "w.nnkp")
+            with open(fn, "w") as f:
+                f.write("\n".join(lines))
+            bk = BKVectors.from_nnkp(fn)
+        if not np.array_equal(np.array(bk.bk_grid), file_b):
+            raise Violation("nnkp-order", "b-vectors of an object read from .nnkp are not in the order of the file's neighbour list")
+        labels.append("route=nnkp")
+        labels.append("nnkp-order-mixes-shells" if np.any(np.diff(np.sqrt(((file_b @ basis) ** 2).sum(axis=1))) < -1e-9) else None)
     wk = np.array(bk.wk, dtype=float)
     bg = np.array(bk.bk_grid)
     NNB = len(wk)
